@@ -238,3 +238,20 @@ func VerifC06_RefuseTooLarge() {
 	nd.Assert(err != nil, "refused with a compressor too")
 	nd.Assert(buf.Len() == 0, "nothing written")
 }
+
+// thorough tier: longer payloads
+func verifThoroughOnly(f func()) {
+	if !verifThorough {
+		nd.Assert(true, "thorough tier only")
+		return
+	}
+	f()
+}
+
+func VerifC06_Segment_n16()    { verifThoroughOnly(func() { verifSegmentUncompressed(16) }) }
+func VerifC06_Segment_n24()    { verifThoroughOnly(func() { verifSegmentUncompressed(24) }) }
+func VerifC06_SegmentLZ4_n16() { verifThoroughOnly(func() { verifSegmentCompressed(16, 0) }) }
+func VerifC06_SegmentLZ4_n24() { verifThoroughOnly(func() { verifSegmentCompressed(24, 0) }) }
+func VerifC06_SegmentLZ4_n5000_maxratio() {
+	verifThoroughOnly(func() { verifSegmentCompressed(5000, 1) })
+}
